@@ -307,7 +307,8 @@ class ModelCacheMixin:
     def batch_eval(self, asts, n, extra_constraints=(), exact=None):
         results = self._get_batch_solutions(asts, n=n, extra_constraints=extra_constraints)
 
-        if len(results) == n or (len(asts) == 1 and asts[0].hash() in self._eval_exhausted):
+        if len(results) == n or (len(extra_constraints) == 0 and len(asts) == 1 and asts[0].hash() in self._eval_exhausted):
+            # (under extra constraints the cached models need not cover every feasible value any more)
             return results
 
         remaining = n - len(results)
